@@ -9,7 +9,7 @@ CONSTANTS NProcs = 2
           EmitOn = FALSE
           Sim = FALSE
 INIT Init
-NEXT Next
+NEXT NextAll
 INVARIANT TypeOk
 INVARIANT NoPartialRead
 INVARIANT NoWrongAnswer
